@@ -38,6 +38,10 @@ EventClauses(hb, rb, pairs, prevres, ev) ==
                                      /\ ((\A m \in Reach(hb, src) : hb[m].t # "meta") => ev.eq))>>,
            <<"C08:TagifyIsAFixedPoint", ~HasTfy(hb, src) => Struct(ha, IdRef(dst)) = sb[ev.root]>>,
            <<"C08:RepeatingGivesIdenticalResults", prevres # "" => ev.res = prevres>> >>
+    \* a tagify() call observed while the repository's own tests ran (objects of unknown classes are opaque)
+    [] ev.op = "tagify_observed" ->
+        << <<"C08:ReadOnlyOperationLeavesEveryReachableObjectStructurallyUnchanged", \A i \in 1..Len(rb) : unchanged(i)>>,
+           <<"C08:TagifyResultSharesNoTagListAttrsOrMetadataWithOriginal", Shared(ha, rb[ev.root], ev.newroot) = {}>> >>
     [] ev.op = "mutate" ->
         << <<"C08:MutatingOneOfOriginalAndTagifyResultNeverAffectsTheOther",
                \A j \in 1..Len(rb) : (j # ev.via /\ Related(pairs, ev.via, j)) => unchanged(j)>> >>
